@@ -5,6 +5,7 @@ cd "$(dirname "$0")/.."
 T=${3:-quick}
 OUT=$(mktemp -d)
 export VERIF_EVIDENCE_DIR=$OUT/evidence VERIF_REPLAY_DIR=$OUT/replays
+export VERIF_JOBS=${VERIF_JOBS:-8}
 for s in $(seq $1 $2); do
   for p in C01 C02 C03 C04 C05 C06 C07 C10 C11 C12 C13 C14 C16 C17; do
     r=$(VERIF_SEED=$s bin/check $p --tier $T 2>&1); c=$?
